@@ -20,7 +20,7 @@ RULE = ("case = (D1 index, X, D2 index); X ranges over every token sequence <= L
         "valid documents, and random garbage; non-trivial = the combined parse contains a failed block or X contains a block opener; "
         "distinct = distinct (D1, X, D2)")
 ASSUMPTIONS = ["D1, X and D2 use disjoint key pools so duplicate-key wrapping cannot blur the comparison"]
-MIN = {"prefix_invariance": (50000, 500000), "suffix_invariance": (50000, 500000), "concat": (20, 20), "abort_on_opener_seen": (1000, 10000)}
+MIN = {"prefix_invariance": (50000, 500000), "suffix_invariance": (50000, 500000), "concat": (20, 20), "failed_block_with_key_of_suffix": (100, 100), "abort_on_opener_seen": (1000, 10000)}
 
 XALPHA = ["@x", "@x{", "@comment{", "@string{", "@preamble{", "{", "}", '"', ",", "=", "#", "\\", "@", "q", " ", "\n"]
 NDOC = 24
@@ -93,6 +93,10 @@ def cases(tier, seed, shard, nshards):
             yield {"k": "concat_same", "d1": 0, "d2": i}
             for g in ('{ "', "@x{q, t = {", '}} "'):
                 yield {"k": "xdup", "d1": (i * 5 + seed) % NDOC, "d2": i, "g": g}
+            # X holds a FAILED block that carries the key of a block of D2 (seed C04-l: the key of an entry inside a
+            # duplicate-field block stays taken): a failed block holds no key, D2 must be parsed exactly as on its own
+            for g in range(len(XFAIL)):
+                yield {"k": "xfailkey", "d1": (i * 3 + g + seed) % NDOC, "d2": i, "g": g}
     idx = 0
     for seq in tokens.sequences(XALPHA, _L(tier), shard, nshards):
         idx += 1
@@ -120,6 +124,11 @@ def cases(tier, seed, shard, nshards):
                 x = garbage.inject(r, t, ['"', "{", "}", "@x{", "\\", "@comment{", "@string{k = ", "@preamble{"])
         yield {"k": "x", "d1": r.randrange(NDOC), "d2": r.randrange(NDOC), "x": x}
 
+
+# %K = key of a keyed block of D2, %T = its entry type / 'string'
+XFAIL = ["@%T{%K, t = {1}, t = {2}}", "@misc{%K, a = 1, b = 2, a = 3,}", "@%T{%K, t = {x}, junk}", "@%T{%K t = {x}}", "@%T{%K, t = {x}\n", "@%T{%K, = {x}}",
+         "@%T{%K, t = {x} u = {y}}", "@%T{%K, t = {1}, t = {2}}\n@%T{%K, u = {1}, u = {2}}", "@string{%K = {x} {y}}", "@string{%K = }", "@string{%K}",
+         "@%T{%K, t = {1}, T = {2}, t = {3}}\n% c\n@%T{%K, t = {1}, t = {2}"]
 
 _PARSED = {}
 
@@ -159,6 +168,32 @@ def unwrap(lib):
     return out, wrapped
 
 
+def check_failkey(case, ctx):
+    d1, d2 = docs()[0][case["d1"]], docs()[1][case["d2"]]
+    p1, p2 = parsed_alone(0, case["d1"]), parsed_alone(1, case["d2"])
+    out = []
+    for pr in [q for q in p2 if q[0] in ("entry", "string")]:
+        typ, key = ("string", pr[1]) if pr[0] == "string" else (pr[1], pr[2])
+        x = XFAIL[case["g"]].replace("%T", typ if not XFAIL[case["g"]].startswith("@string") else "string").replace("%K", key)
+        st, xl = sp.split(x)
+        if st != "ok" or any(sp.block_kind(b) in ("entry", "string") for b in xl.blocks):
+            ctx.note("xfailkey_x_not_failed")      # X must hold failed blocks only, otherwise duplicate wrapping is legitimate
+            continue
+        text = d1 + "\n" + x + "\n" + d2
+        st, lib = sp.split(text)
+        ctx.ran()
+        ctx.mon("failed_block_with_key_of_suffix")
+        if st == "raise":
+            return [Violation("raised", f"C04:raise:{lib.split(':')[0]}", dict(error=lib, text=text))]
+        got = sp.project_lib(lib, raw=True)
+        if got[:len(p1)] != p1:
+            out.append(Violation("prefix-changed", "C04:prefix-changed:failed-block-with-key", dict(text=text, got=got[:len(p1) + 1])))
+        if got[len(got) - len(p2):] != p2:
+            out.append(Violation("suffix-changed", "C04:suffix-changed:failed-block-with-key", dict(text=text, got=got[-len(p2) - 1:], want=p2)))
+        ctx.nontriv([case["k"], case["d1"], case["d2"], case["g"], key])
+    return out
+
+
 def check_dups(case, ctx):
     d2 = docs()[1][case["d2"]]
     p2 = parsed_alone(1, case["d2"])
@@ -194,6 +229,8 @@ def check_dups(case, ctx):
 def check(case, ctx):
     if case["k"] in ("concat_same", "xdup"):
         return check_dups(case, ctx)
+    if case["k"] == "xfailkey":
+        return check_failkey(case, ctx)
     d1 = docs()[0][case["d1"]]
     d2 = docs()[1][case["d2"]]
     p1 = parsed_alone(0, case["d1"])
